@@ -1,6 +1,13 @@
+#[cfg(not(torrent_bootstrap_verif))]
 use std::{
     collections::{HashMap, HashSet}, fs::{File, OpenOptions}, io::{Read, Seek, SeekFrom}, os::unix::fs::MetadataExt, path::{Path, PathBuf}, sync::Arc
 };
+#[cfg(torrent_bootstrap_verif)]
+use std::{
+    collections::{HashMap, HashSet}, io::{Read, Seek, SeekFrom}, os::unix::fs::MetadataExt, path::{Path, PathBuf}, sync::Arc
+};
+#[cfg(torrent_bootstrap_verif)]
+use crate::verif::fs::{File, OpenOptions};
 use walkdir::WalkDir;
 
 use crate::{get_sha1_hexdigest, Torrent};
@@ -410,4 +417,40 @@ pub(crate) fn read_bytes_reuse_buffer(
         .read_to_end(&mut read_bytes)?;
 
     Ok(())
+}
+
+#[cfg(torrent_bootstrap_verif)]
+impl FileCache {
+    /// The index in iteration order: (length, [(path, device, inode)]).
+    pub fn verif_dump(&self) -> Vec<(u64, Vec<(PathBuf, u64, u64)>)> {
+        self.nodes.iter()
+            .map(|(length, entries)| (*length, entries.iter().map(|(path, info)| (path.clone(), info.device, info.inode)).collect()))
+            .collect()
+    }
+}
+
+#[cfg(torrent_bootstrap_verif)]
+impl TorrentMetadataEntry {
+    pub fn verif_info_hash(&self) -> &[u8] { &self.info_hash }
+    pub fn verif_file_index(&self) -> usize { self.file_index }
+    pub fn verif_partial_target(&self) -> &Path { &self.partial_target }
+}
+
+#[cfg(torrent_bootstrap_verif)]
+pub fn verif_record_index(file_cache: &FileCache, metadata: &[TorrentMetadataEntry]) {
+    use crate::verif::fslog::{hex, note};
+    let path_hex = |path: &Path| hex(path.as_os_str().as_encoded_bytes());
+    for (length, entries) in file_cache.verif_dump() {
+        let rendered: Vec<String> = entries.iter().map(|(path, device, inode)| format!("{}:{}:{}", path_hex(path), device, inode)).collect();
+        note("index", &format!("len={} nodes={}", length, rendered.join(",")));
+    }
+    for entry in metadata {
+        let searches = match &entry.searches {
+            Some(paths) => format!("some:{}", paths.iter().map(|path| path_hex(path)).collect::<Vec<_>>().join(",")),
+            None => "none".to_string(),
+        };
+        note("entry", &format!("id={} hash={} file={} len={} pad={} full={} partial={} searches={}",
+            entry.id, hex(&entry.info_hash), entry.file_index, entry.file_length, entry.is_padding_file as u8,
+            path_hex(&entry.full_target), path_hex(&entry.partial_target), searches));
+    }
 }
